@@ -451,15 +451,17 @@ async def sorted(
         It is guaranteed to be worst-case O(n log n) runtime.
     """
     if key is None:
-        # TODO: is this a worthwhile optimisation?
-        try:
-            return _sync_builtins.sorted(iterable, reverse=reverse)  # type: ignore
-        except TypeError:
-            items: _sync_builtins.list[Any] = [item async for item in aiter(iterable)]
-            items.sort(reverse=reverse)
-            return items
+        # a regular iterable is sorted directly; errors from it or from
+        # comparing its items must surface instead of triggering a second pass
+        if not isinstance(iterable, AsyncIterable):
+            return _sync_builtins.sorted(iterable, reverse=reverse)
+        async with ScopedIter(iterable) as item_iter:
+            items: _sync_builtins.list[Any] = [item async for item in item_iter]
+        items.sort(reverse=reverse)
+        return items
     else:
         async_key = _awaitify(key)
-        keyed_items = [(await async_key(item), item) async for item in aiter(iterable)]
+        async with ScopedIter(iterable) as item_iter:
+            keyed_items = [(await async_key(item), item) async for item in item_iter]
         keyed_items.sort(key=lambda ki: ki[0], reverse=reverse)
         return [item for _, item in keyed_items]
